@@ -365,6 +365,9 @@ struct WrappedBlock<T> {
 
 impl<T: Clone + Eq + Debug + Default> WrappedBlock<T> {
     pub fn new(width: usize, pad_blocks: bool, allow_overflow: bool) -> WrappedBlock<T> {
+        // When overflowing is allowed a block is never narrower than one
+        // column, so that filling it always makes progress.
+        let width = if allow_overflow { width.max(1) } else { width };
         WrappedBlock {
             width,
             text: Vec::new(),
@@ -436,6 +439,10 @@ impl<T: Clone + Eq + Debug + Default> WrappedBlock<T> {
                 while self.wslen > 0 {
                     verif_hook!(tick("flush_word_ws"));
                     let to_copy = self.wslen.min(self.width);
+                    if to_copy == 0 {
+                        // A zero-width block can't hold any whitespace.
+                        return Err(TooNarrow);
+                    }
                     self.line.push_ws(to_copy, self.spacetag.as_ref().unwrap());
                     if to_copy == self.width {
                         self.flush_line();
@@ -633,6 +640,10 @@ impl<T: Clone + Eq + Debug + Default> WrappedBlock<T> {
                             while pos % tab_stop != 0 || !at_least_one_space {
                                 verif_hook!(tick("tab_stop"));
                                 if pos >= self.width {
+                                    if self.width == 0 {
+                                        // No room for even one space.
+                                        return Err(TooNarrow);
+                                    }
                                     self.flush_line();
                                     pos = 0;
                                 } else {
